@@ -299,6 +299,9 @@ def one_criterion(which, s, N, m, rtol=1e-8):
 
 
 def replay(rep):
+    if rep.get('replay', {}).get('form') == 'routes':
+        from props import _estimators as E_
+        return E_.replay_routes(rep['replay'])
     r = rep['replay']; x = vlib.unhexv(r['x']); c = complex(*[float.fromhex(t) for t in r['c']])
     if r['datatype'] == 'real':
         x = np.real(x); c = c.real
@@ -323,6 +326,9 @@ def run(ctx):
     from spectrum import arburg, LEVINSON, CORRELATION
     rng = ctx.rng
     ctx.check_theorems('Properties/C03.v')
+    # the estimate an object holds does not depend on the history that gave it its data and settings (every route of _estimators.via)
+    from props import _estimators as E_
+    E_.class_route_stream(ctx, E_.CLASSES, 'routes')
 
     # ---------------- class level: the theorems over the pipeline table GENERATED from the snapshot on this run
     import os
